@@ -151,15 +151,23 @@ func (s *Store) Rename(oldKey, newKey string) (err error) {
 		return
 	}
 	p = s.logPath(oldKey)
+	q := s.logPath(newKey)
 	if _, err := os.Stat(p); err == nil {
-		q := s.logPath(newKey)
 		err = s.createParentDir(q)
 		if err != nil {
 			return err
 		}
 		return os.Rename(p, q)
 	}
-	return
+	// the renamed ref has no log: a log left by a ref it replaced is not its log
+	return s.removeLog(q)
+}
+
+func (s *Store) removeLog(p string) error {
+	if err := os.Remove(p); err != nil && !os.IsNotExist(err) {
+		return err
+	}
+	return nil
 }
 
 func (s *Store) Copy(srcKey, dstKey string) (err error) {
@@ -185,6 +193,10 @@ func (s *Store) Copy(srcKey, dstKey string) (err error) {
 
 	srcLog, err := os.Open(s.logPath(srcKey))
 	if err != nil {
+		if os.IsNotExist(err) {
+			// a ref that was never set with a log has none to copy
+			return s.removeLog(s.logPath(dstKey))
+		}
 		return
 	}
 	defer srcLog.Close()
